@@ -714,6 +714,7 @@ package graphql
 //@   props C07
 //@   nosafety
 //@   opt split=4
+//@   orderfree[C12,C10]
 //@   ensures result0.possibleTypeMap == nil
 
 // ---- planning: one entry per response key, in document order; shared visited set (C01, C13, C19) ----
